@@ -399,18 +399,24 @@ Definition model_ops (pre : ostate) (st : ostep) (a : N) : option (list gop) :=
           let swaps := flat_map (fun e => match e with
                                    | ERelease phk a' ty => if (a' =? a) && (ty =? TT_PlaceholderReplaced) then [phk] else []
                                    | _ => [] end) (st_events st) in
-          match swaps with
-          | [] => match cancel_ops with [] => None | _ => Some cancel_ops end
-          | [phk] =>
+          (* a normal allocation (placeholder or real ask) of this application *)
+          let alloc_ops := flat_map (fun e => match e with
+                                   | ENewAlloc k a' n _ ph =>
+                                       if a' =? a then
+                                         [GAllocate k n (ph && negb (ap_state ap0 =? ST_Running) &&
+                                                         match find_anyapp (st_obs st) a with
+                                                         | Some ap => ap_state ap =? ST_Running | None => false end)]
+                                       else []
+                                   | _ => [] end) (st_events st) in
+          let swap_ops := flat_map (fun phk =>
               match find_anyapp (st_obs st) a with
               | Some ap => match find_alloc (ap_allocs ap) phk with
                            | Some ph => match find_alloc (ap_requests ap) (oa_release ph) with
-                                        | Some r => Some (cancel_ops ++ [GSwap (oa_key r) phk (if oa_node r =? oa_node ph then None else Some (oa_node r))])
-                                        | None => None end
-                           | None => None end
-              | None => None end
-          | _ => None
-          end
+                                        | Some r => [GSwap (oa_key r) phk (if oa_node r =? oa_node ph then None else Some (oa_node r))]
+                                        | None => [GSwap 0 phk None] end
+                           | None => [GSwap 0 phk None] end
+              | None => [GSwap 0 phk None] end) swaps in
+          match cancel_ops ++ swap_ops ++ alloc_ops with [] => None | l => Some l end
       | _ => None
       end
   end.
@@ -453,7 +459,7 @@ Definition c06_model_step (hards : list (N * bool)) (poison : list (N * N * N)) 
                 let V := proj06 (st_obs st) ap hard in
                 (* the ledgers are shared with other applications: in a scheduling cycle they are compared only when the
                    cycle's single result is this application's swap decision *)
-                let ledgers := negb (is_sched (st_op st)) || existsb (fun o => match o with GSwap _ _ _ => true | _ => false end) ops in
+                let ledgers := negb (is_sched (st_op st)) || existsb (fun o => match o with GSwap _ _ _ | GAllocate _ _ _ => true | _ => false end) ops in
                 if gst_same (match find_app (st_obs st) a with Some _ => true | None => false end) ledgers
                             (map on_id (s_nodes (st_obs st))) M V &&
                    pairs_sub (mod_rel evs) (obs_rel a (st_events st)) && pairs_sub (obs_rel a (st_events st)) (mod_rel evs) &&
